@@ -112,6 +112,8 @@ def reduce_minmax(I, a, axes, keepdim, is_max):
         I.ctx.assume(h)
     I.ctx.assume(m == cv(a.at(widx)))
     dims = list(a.shape)
+    # the attaining index is kept so that selectors built over the same axes can be instantiated at it
+    I.ctx.ghost.setdefault("minmax_witness", []).append((widx, dims))
 
     def schema(idx):
         v = cv(a.at(idx))
